@@ -7,26 +7,28 @@
 set -u
 export GOFLAGS=-mod=mod GOPROXY=off GOSUMDB=off GOTOOLCHAIN=local
 ID="$1"; K="$2"; TIER="${3:-quick}"
-SRC="/tmp/wt-$ID"
+SRC="${SEED_SRC:-/tmp/wt-$ID}"; SK="${SEED_SRCK:-$K}"   # source dir / index (round 2: SEED_SRC=/tmp/wt2-Cxx SEED_SRCK=1 stored as m3)
 V="$(cd "$(dirname "$0")/.." && pwd)"
-P="$SRC/m$K.diff"; D="$SRC/m${K}_demo_test.go.txt"
+P="$SRC/m$SK.diff"; D="$SRC/m${SK}_demo_test.go.txt"
 if [ ! -f "$P" ] && [ -f "$V/seeded/$ID-m$K/patch.diff" ]; then
   # already stored: re-verify from /verif/seeded
   mkdir -p "/tmp/verif-seedsrc-$$"; cp "$V/seeded/$ID-m$K/patch.diff" "/tmp/verif-seedsrc-$$/p.diff"; cp "$V/seeded/$ID-m$K/demo_test.go.txt" "/tmp/verif-seedsrc-$$/d.txt"
   P="/tmp/verif-seedsrc-$$/p.diff"; D="/tmp/verif-seedsrc-$$/d.txt"
 fi
 [ -f "$P" ] && [ -f "$D" ] || { echo "seed_verify: $P or $D missing"; exit 2; }
+# the test function name is whatever the demo file declares
+TN=$(grep -o 'func TestDemo[0-9]*' "$D" | head -1 | sed 's/func //'); [ -n "$TN" ] || TN="TestDemo$SK"
 W="$(mktemp -d /tmp/verif-seed.XXXXXX)"; trap 'rm -rf "$W" "/tmp/verif-seedsrc-$$"' EXIT
 rsync -a --exclude .git /repo/ "$W/clean/"
 rsync -a --exclude .git /repo/ "$W/mut/"
 ( cd "$W/mut" && patch -p1 -s < "$P" ) || { echo "seed_verify: patch does not apply to /repo HEAD"; exit 3; }
-cp "$D" "$W/clean/zz_demo${K}_test.go"
-a=$(cd "$W/clean" && go test -vet=off -count=1 -run "TestDemo$K\$" . > "$W/a.log" 2>&1; echo $?)
+cp "$D" "$W/clean/zz_demo${SK}_test.go"
+a=$(cd "$W/clean" && go test -vet=off -count=1 -run "$TN\$" . > "$W/a.log" 2>&1; echo $?)
 b=$(cd "$W/mut" && go test -vet=off -count=1 ./... > "$W/b.log" 2>&1; echo $?)
-cp "$D" "$W/mut/zz_demo${K}_test.go"
+cp "$D" "$W/mut/zz_demo${SK}_test.go"
 RACE=""; grep -q "race" "$D" && RACE="-race"
-c=$(cd "$W/mut" && go test $RACE -vet=off -count=1 -run "TestDemo$K\$" . > "$W/c.log" 2>&1; echo $?)
-rm -f "$W/mut/zz_demo${K}_test.go"
+c=$(cd "$W/mut" && go test $RACE -vet=off -count=1 -run "$TN\$" . > "$W/c.log" 2>&1; echo $?)
+rm -f "$W/mut/zz_demo${SK}_test.go"
 echo "seed_verify $ID m$K: demo-on-clean rc=$a (want 0), suite-on-mutant rc=$b (want 0), demo-on-mutant rc=$c (want !=0)"
 if [ "$a" != 0 ] || [ "$b" != 0 ] || [ "$c" = 0 ]; then
   tail -5 "$W/a.log" "$W/b.log" "$W/c.log"; echo "seed_verify: NOT a valid seeded change"; exit 4
